@@ -67,7 +67,24 @@ pub fn observe(_ctx: &Ctx, st: &mut Stats, job: &Job) {
     };
     // a fifth of the symbols are edited through the public API before rendering (toggled modules, inverted symbol,
     // function patterns forced, type labels rewritten): the text must follow the module values it is given
+    // (half of them after the unedited symbol has been rendered once from the same object: the copy carries whatever the
+    // object remembers of that)
     let qr = if job.seed % 5 == 3 {
+        if job.seed % 2 == 0 {
+            match adapter::guarded(|| qr.to_str()) {
+                Ok(t) => {
+                    if let Err(v) = svgcheck::check_terminal(&t, &qr) {
+                        flag(st, ID, v, job, false);
+                        return;
+                    }
+                }
+                Err(p) => {
+                    flag(st, ID, ("render-panic".into(), p), job, false);
+                    return;
+                }
+            }
+            st.count("symbols_edited_after_a_first_rendering_of_the_same_object", 1);
+        }
         let (e, _) = adapter::edited_by_hand(&qr, job.seed);
         st.count("symbols_edited_by_hand_before_rendering", 1);
         Box::new(e)
